@@ -45,6 +45,9 @@ import (
 	xpv1 "github.com/crossplane/crossplane-runtime/apis/common/v1"
 	xpcontroller "github.com/crossplane/crossplane-runtime/pkg/controller"
 	"github.com/crossplane/crossplane-runtime/pkg/logging"
+	xpresource "github.com/crossplane/crossplane-runtime/pkg/resource"
+	xpunstructured "github.com/crossplane/crossplane-runtime/pkg/resource/unstructured"
+	"github.com/crossplane/crossplane-runtime/pkg/resource/unstructured/composed"
 
 	"github.com/crossplane/crossplane/apis/apiextensions/v1beta1"
 	usagectrl "github.com/crossplane/crossplane/internal/controller/apiextensions/usage"
@@ -73,6 +76,7 @@ type c19RSpec struct {
 //	du    user deletes Usage name
 //	dr    delete request for a resource (av, kind, name, policy, wo = outcomes of the webhook's List and Patch)
 //	gc    Kubernetes GC considers one object (kind "Usage" or av/kind, name)
+//	xa    the XR composer re-applies the composed Usage name, controlled by XR ctrl (RespectOwnerRefs)
 //	start start a reconcile of Usage u (parked before its first call)
 //	step  let the reconcile of u perform its next API call with outcome o
 //	run   start (unless in flight) and run the reconcile of u to completion, all calls ok
@@ -303,6 +307,8 @@ type c19Thread struct {
 	didList  bool
 	listedGK string
 	listedNm string
+	// resources in the store when this reconcile last listed resources (selector resolution)
+	resListed map[string]*c19SRes
 }
 
 type c19Gate struct {
@@ -412,6 +418,11 @@ type c19Sys struct {
 	// stale[k]: the in-use label of resource k was removed by a reconcile whose count of
 	// Usages (taken before another Usage of k appeared) was already out of date (defect D16)
 	stale map[string]bool
+	// tainted[uid]: Usage uid went ready-but-unmarked as a consequence of D16; later consequences
+	// for the same Usage (e.g. its used resource deleted and re-created) are the same finding
+	tainted map[types.UID]bool
+	// born[uid] = key of the resource that was created with that uid (never forgotten)
+	born map[types.UID]string
 }
 
 func (s *c19Sys) mon(sig, why string) {
@@ -426,7 +437,7 @@ func c19NewSys(maxc int) *c19Sys {
 	sc := runtime.NewScheme()
 	_ = v1beta1.AddToScheme(sc)
 	st := NewStore(sc)
-	s := &c19Sys{st: st, maxc: maxc, threads: map[string]*c19Thread{}, monSeen: map[string]bool{}, stale: map[string]bool{}}
+	s := &c19Sys{st: st, maxc: maxc, threads: map[string]*c19Thread{}, monSeen: map[string]bool{}, stale: map[string]bool{}, tainted: map[types.UID]bool{}, born: map[types.UID]string{}}
 	s.wire = c19NewWire(st)
 	if s.wire.err != "" {
 		s.mon("C19:webhook-setup-failed", s.wire.err)
@@ -755,7 +766,11 @@ func (s *c19Sys) exec(st c19Step) string {
 			o.SetLabels(l)
 		}
 		o.SetOwnerReferences(s.ownerRefTo(st.Ctrl))
-		return c19ErrStr(s.st.Create(ctx, o))
+		err := s.st.Create(ctx, o)
+		if err == nil {
+			s.born[o.GetUID()] = c19ResKey(c19Group(st.AV), st.Kind, st.Name)
+		}
+		return c19ErrStr(err)
 	case "cu":
 		u := &v1beta1.Usage{ObjectMeta: metav1.ObjectMeta{Name: st.Name}}
 		if st.Composed {
@@ -780,6 +795,8 @@ func (s *c19Sys) exec(st c19Step) string {
 		return s.deleteRes(st.AV, st.Kind, st.Name, st.Policy, st.WO, false)
 	case "gc":
 		return s.gc(st)
+	case "xa":
+		return s.reapply(st.Name, st.Ctrl)
 	case "start":
 		return s.start(st.U)
 	case "step":
@@ -788,6 +805,50 @@ func (s *c19Sys) exec(st c19Step) string {
 		return s.run(st.U)
 	}
 	return "unknown-op"
+}
+
+// reapply is what the P&T composer does for a composed Usage on every XR reconcile
+// (composition_pt.go): Apply(cd, MustBeControllableBy(xr), usage.RespectOwnerRefs()) through
+// the patching applicator, where the desired object carries only the XR's controller reference.
+func (s *c19Sys) reapply(name, ctrl string) string {
+	cur := s.st.Peek(c19UsageGK, "", name)
+	refs := s.ownerRefTo(ctrl)
+	if cur == nil || len(refs) == 0 {
+		return "ignored"
+	}
+	before := s.snapshot()
+	desired := composed.New()
+	desired.SetUnstructuredContent(cur.DeepCopy().Object)
+	unstructured.RemoveNestedField(desired.Object, "metadata", "resourceVersion")
+	unstructured.RemoveNestedField(desired.Object, "metadata", "managedFields")
+	unstructured.RemoveNestedField(desired.Object, "status")
+	desired.SetOwnerReferences(refs)
+	err := xpresource.NewAPIPatchingApplicator(xpunstructured.NewClient(s.st)).Apply(context.Background(), desired,
+		xpresource.MustBeControllableBy(refs[0].UID), usagectrl.RespectOwnerRefs())
+	after := s.snapshot()
+	if b, ok := before.Usages[name]; ok {
+		a := after.Usages[name]
+		for _, o := range b.Owners {
+			kept := false
+			if a != nil {
+				for _, o2 := range a.Owners {
+					if o2.UID == o.UID {
+						kept = true
+					}
+				}
+			}
+			if !kept {
+				s.mon("C19:owner-reference-dropped-by-composer", fmt.Sprintf("re-applying the composed Usage %s dropped its owner reference to %s/%s", name, o.Kind, o.Name))
+			}
+		}
+	}
+	switch {
+	case err == nil:
+		return "ok"
+	case xpresource.IsNotControllable(err):
+		return "notControllable"
+	}
+	return "error:" + errClass(err)
 }
 
 // drain lets every in-flight reconcile finish (all calls ok) so that no goroutine leaks.
@@ -818,6 +879,8 @@ type c19SUsage struct {
 	Owners                        []metav1.OwnerReference
 	Details                       string
 	Indexes                       []string
+	OfMC, ByMC                    bool
+	OfLabels, ByLabels            map[string]string
 }
 
 type c19SRes struct {
@@ -827,6 +890,7 @@ type c19SRes struct {
 	UID               types.UID
 	Owners            []metav1.OwnerReference
 	IndexValue        string
+	Labels            map[string]string
 }
 
 type c19Snap struct {
@@ -846,6 +910,13 @@ func (s *c19Sys) snapshot() *c19Snap {
 			x := &c19SUsage{Name: u.Name, OfGroup: c19Group(u.Spec.Of.APIVersion), OfKind: u.Spec.Of.Kind, UID: u.UID, Owners: u.OwnerReferences}
 			if u.Spec.Of.ResourceRef != nil {
 				x.OfName = u.Spec.Of.ResourceRef.Name
+			}
+			if rs := u.Spec.Of.ResourceSelector; rs != nil {
+				x.OfMC, x.OfLabels = rs.MatchControllerRef != nil && *rs.MatchControllerRef, rs.MatchLabels
+			}
+			if u.Spec.By != nil && u.Spec.By.ResourceSelector != nil {
+				rs := u.Spec.By.ResourceSelector
+				x.ByMC, x.ByLabels = rs.MatchControllerRef != nil && *rs.MatchControllerRef, rs.MatchLabels
 			}
 			if u.Spec.By != nil {
 				x.HasBy = true
@@ -869,6 +940,7 @@ func (s *c19Sys) snapshot() *c19Snap {
 			continue
 		}
 		r := &c19SRes{Group: gk.Group, Kind: gk.Kind, Name: o.GetName(), UID: o.GetUID(), Owners: o.GetOwnerReferences()}
+		r.Labels = o.GetLabels()
 		r.InUse = o.GetLabels()[usagectrl.VerifInUseLabelKey] == "true"
 		r.Attempt = o.GetAnnotations()[usagehook.AnnotationKeyDeletionAttempt]
 		r.IndexValue = usagehook.IndexValueForObject(o)
@@ -884,11 +956,48 @@ func (u *c19SUsage) names(r *c19SRes) bool {
 
 // sigFor classifies a violation concerning resource k: if the label of k was last removed
 // under an out-of-date count it is the known race D16, otherwise the plain signature.
-func (s *c19Sys) sigFor(k, plain string) string {
-	if s.stale[k] {
+func (s *c19Sys) sigFor(k, plain string, us ...*c19SUsage) string {
+	d16 := s.stale[k]
+	for _, u := range us {
+		if s.tainted[u.UID] {
+			d16 = true
+		}
+	}
+	if d16 {
+		for _, u := range us {
+			s.tainted[u.UID] = true
+		}
 		return "C19:marker-removed-after-stale-count"
 	}
 	return plain
+}
+
+func c19Ctrl(refs []metav1.OwnerReference) types.UID {
+	for _, o := range refs {
+		if o.Controller != nil && *o.Controller {
+			return o.UID
+		}
+	}
+	return ""
+}
+
+// checkResolved: this call persisted the resolution of a selector: the chosen resource must be
+// one the reconcile's List returned, carry the selector's labels and, with matchControllerRef,
+// the Usage's controller.
+func (s *c19Sys) checkResolved(t *c19Thread, u *c19SUsage, what, group, kind, name string, mc bool, lbls map[string]string) {
+	r, ok := t.resListed[c19ResKey(group, kind, name)]
+	if !ok {
+		s.mon("C19:selector-resolved-to-unlisted", fmt.Sprintf("spec.%s of Usage %s was resolved to %s, which was not in the store when the resources were listed", what, u.Name, c19ResKey(group, kind, name)))
+		return
+	}
+	for k, v := range lbls {
+		if r.Labels[k] != v {
+			s.mon("C19:selector-resolved-to-unlabelled", fmt.Sprintf("spec.%s of Usage %s was resolved to %s, which lacks label %s=%s", what, u.Name, name, k, v))
+		}
+	}
+	if mc && (c19Ctrl(u.Owners) == "" || c19Ctrl(u.Owners) != c19Ctrl(r.Owners)) {
+		s.mon("C19:selector-ignored-controller-ref", fmt.Sprintf("spec.%s of Usage %s (matchControllerRef) was resolved to %s, which has a different controller", what, u.Name, name))
+	}
 }
 
 // checkState evaluates the state part of the property after every step.
@@ -898,26 +1007,29 @@ func (s *c19Sys) checkState(before, after *c19Snap, step int) {
 			continue
 		}
 		for _, r := range after.Res {
+			if u.names(r) && r.InUse {
+				delete(s.tainted, u.UID)
+			}
+		}
+		for _, r := range after.Res {
 			if u.names(r) && !r.InUse {
-				s.mon(s.sigFor(c19ResKey(r.Group, r.Kind, r.Name), "C19:ready-usage-unmarked"), fmt.Sprintf("after step %d Usage %s is ready and not being deleted but %s lacks the in-use label", step, u.Name, c19ResKey(r.Group, r.Kind, r.Name)))
+				s.mon(s.sigFor(c19ResKey(r.Group, r.Kind, r.Name), "C19:ready-usage-unmarked", u), fmt.Sprintf("after step %d Usage %s is ready and not being deleted but %s lacks the in-use label", step, u.Name, c19ResKey(r.Group, r.Kind, r.Name)))
 			}
 		}
 		// moment ready is set
 		if b, ok := before.Usages[u.Name]; !ok || !b.Ready || b.UID != u.UID {
 			for _, r := range after.Res {
 				if u.names(r) && !r.InUse {
-					s.mon(s.sigFor(c19ResKey(r.Group, r.Kind, r.Name), "C19:ready-before-marker"), fmt.Sprintf("step %d set Usage %s ready while %s lacks the in-use label", step, u.Name, c19ResKey(r.Group, r.Kind, r.Name)))
+					s.mon(s.sigFor(c19ResKey(r.Group, r.Kind, r.Name), "C19:ready-before-marker", u), fmt.Sprintf("step %d set Usage %s ready while %s lacks the in-use label", step, u.Name, c19ResKey(r.Group, r.Kind, r.Name)))
 				}
 			}
 			if u.HasBy {
+				// owned by a resource that was created under the key spec.by refers to (the using
+				// resource may meanwhile have been deleted and re-created under a new uid)
 				owned := false
-				for _, r := range after.Res {
-					if r.Group == u.ByGroup && r.Kind == u.ByKind && r.Name == u.ByName {
-						for _, o := range u.Owners {
-							if o.UID == r.UID {
-								owned = true
-							}
-						}
+				for _, o := range u.Owners {
+					if s.born[o.UID] == c19ResKey(u.ByGroup, u.ByKind, u.ByName) {
+						owned = true
 					}
 				}
 				if !owned {
@@ -946,6 +1058,19 @@ func (s *c19Sys) afterCall(t *c19Thread, c CallInfo, before *c19Snap) {
 	for k, rb := range before.Res {
 		if ra, ok := after.Res[k]; !ok || ra.UID != rb.UID || (!rb.InUse && ra.InUse) {
 			delete(s.stale, k)
+		}
+	}
+	if c.Verb == "list" && c.GK != c19UsageGK.String() && c.Err == "" {
+		t.resListed = before.Res
+	}
+	if c.Verb == "update" && c.GK == c19UsageGK.String() && c.Applied {
+		if b, a := before.Usages[t.name], after.Usages[t.name]; b != nil && a != nil && b.UID == a.UID {
+			if b.OfName == "" && a.OfName != "" {
+				s.checkResolved(t, a, "of", a.OfGroup, a.OfKind, a.OfName, a.OfMC, a.OfLabels)
+			}
+			if b.HasBy && b.ByName == "" && a.ByName != "" {
+				s.checkResolved(t, a, "by", a.ByGroup, a.ByKind, a.ByName, a.ByMC, a.ByLabels)
+			}
 		}
 	}
 	if c.Verb == "update" && c.Applied {
@@ -992,11 +1117,13 @@ func (s *c19Sys) afterDelete(before *c19Snap, group, kind, name, policy, res str
 	}
 	after := s.snapshot()
 	var named, ready []string
+	var readyUs []*c19SUsage
 	for _, u := range before.Usages {
 		if u.names(rb) {
 			named = append(named, u.Name)
 			if u.Ready && !u.Deleting {
 				ready = append(ready, u.Name)
+				readyUs = append(readyUs, u)
 			}
 		}
 	}
@@ -1004,7 +1131,7 @@ func (s *c19Sys) afterDelete(before *c19Snap, group, kind, name, policy, res str
 	sort.Strings(ready)
 	allowed := strings.HasPrefix(res, "allowed")
 	if allowed && len(ready) > 0 {
-		s.mon(s.sigFor(k, "C19:delete-allowed-while-ready"), fmt.Sprintf("delete of %s was allowed although Usage(s) %v are ready and not being deleted", k, ready))
+		s.mon(s.sigFor(k, "C19:delete-allowed-while-ready", readyUs...), fmt.Sprintf("delete of %s was allowed although Usage(s) %v are ready and not being deleted", k, ready))
 	}
 	if s.hookInvoked && allowed && len(named) > 0 {
 		s.mon("C19:webhook-allowed-with-usage", fmt.Sprintf("the webhook allowed the delete of %s (request group %q) although Usage(s) %v name it", k, group, named))
